@@ -554,10 +554,12 @@ theorem window_complete (v : Int) (st en : Date) (lo hi : Nat) (h1 : lo ≤ st.y
 
 /-- what the property asks of the yearly share: over the simulated years `lo .. hi` the shares of a
 frame add up to the total of its values — for closed records (start ≤ end, both inside the period)
-and for open-ended ones (no end date: still active when the simulation ends) -/
+and for open-ended ones (no end date: still active when the simulation ends).  `m` is the latest
+date recorded in the frame; real dates are valid and none of them lies in a year after `m`'s -/
 def C14_yearly_statement : Prop :=
-  ∀ (rows : List (Int × Option Date × Option Date)) (lo hi : Nat),
-    (∀ r ∈ rows, ∃ st, r.2.1 = some st ∧ lo ≤ st.y ∧ st.y ≤ hi ∧
+  ∀ (rows : List (Int × Option Date × Option Date)) (lo hi : Nat) (m : Date),
+    latestDate rows = some m → m.y ≤ hi →
+    (∀ r ∈ rows, ∃ st, r.2.1 = some st ∧ ValidDate st ∧ lo ≤ st.y ∧ st.y ≤ m.y ∧
       ∀ en, r.2.2 = some en → st.y ≤ en.y ∧ en.y ≤ hi ∧ st.ord ≤ en.ord) →
     sumTo (fun i => yearlyShare rows (lo + i)) (hi - lo + 1) = sumI (rows.map (·.1))
 
@@ -579,26 +581,49 @@ theorem C14_yearly_partial (rows : List (Int × Option Date × Option Date)) (lo
   simp only at hs he; subst hs; subst he
   exact window_complete v st en lo hi h1 h2 h3 (by omega)
 
-/-- false of the code as it stands (known finding C14-open-ended-yearly-share): 10 kg recorded
-2023-03-01 .. 2023-06-01 next to an open-ended 10 kg record that starts on 2024-02-01; the open end
-is assumed at 2023-12-31, before the record starts: the shares of 2023 and 2024 are
-10 + 10 · 335 / (−31), not 20 -/
-theorem C14_yearly_counterexample : ¬ C14_yearly_statement := by
-  intro h
-  have := h [(10, some ⟨2023, 3, 1⟩, some ⟨2023, 6, 1⟩), (10, some ⟨2024, 2, 1⟩, none)] 2023 2024 (by
-    intro r hr
-    simp only [List.mem_cons, List.not_mem_nil, or_false] at hr
-    rcases hr with rfl | rfl
-    · exact ⟨⟨2023, 3, 1⟩, rfl, by decide, by decide, fun en he => by cases he; decide +kernel⟩
-    · exact ⟨⟨2024, 2, 1⟩, rfl, by decide, by decide, fun en he => by cases he⟩)
-  revert this
+/-- C14 for the yearly share (repaired code, e320a70): closed and open-ended records alike, the
+shares over the simulated years add up to the value.  An open record lasts until Dec 31 of the
+latest year recorded in the frame, which is never before its own start -/
+theorem C14_yearly : C14_yearly_statement := by
+  intro rows lo hi m hm hhi h
+  have : (fun i => yearlyShare rows (lo + i))
+      = fun i => sumR (rows.map fun r => yearlyShare [closeRow m.y r] (lo + i)) := by
+    funext i; exact yearlyShare_latest rows (lo + i) m hm
+  rw [this, sumTo_sumR (fun i r => yearlyShare [closeRow m.y r] (lo + i)), sumI_eq_sumR, List.map_map]
+  congr 1
+  apply List.map_congr_left
+  intro r hr
+  obtain ⟨st, hs, hv, h1, h2, hen⟩ := h r hr
+  obtain ⟨v, s', e'⟩ := r
+  simp only at hs; subst hs
+  cases e' with
+  | some en =>
+    obtain ⟨h3, h4, h5⟩ := hen en rfl
+    exact window_complete v st en lo hi h1 h3 h4 (by omega)
+  | none =>
+    have := ord_le_eoy st hv m.y h2
+    exact window_complete v st ⟨m.y, 12, 31⟩ lo hi h1 h2 hhi (by omega)
+
+/-- regression witnesses of e320a70 (the three shapes of the former finding
+C14-open-ended-yearly-share on the unrepaired code: division by zero, −108.06, 40150): an open-ended
+10 kg record that starts on Jan 1 / Feb 1 of the year after the latest recorded end date counts with
+its 10 kg in that year; a 110 kg record open since 2021-12-31 counts in 2021 and not in 2022 -/
+example :
+    yearlyShare [(10, some ⟨2023, 3, 1⟩, some ⟨2023, 6, 1⟩), (10, some ⟨2024, 1, 1⟩, none)] 2024 = 10 ∧
+    yearlyShare [(10, some ⟨2023, 3, 1⟩, some ⟨2023, 6, 1⟩), (10, some ⟨2024, 2, 1⟩, none)] 2024 = 10 ∧
+    yearlyShare [(10, some ⟨2023, 3, 1⟩, some ⟨2023, 6, 1⟩), (10, some ⟨2024, 2, 1⟩, none)] 2023 = 10 ∧
+    yearlyShare [(53, some ⟨2021, 8, 31⟩, some ⟨2021, 10, 1⟩), (110, some ⟨2021, 12, 31⟩, none)] 2021 = 163 ∧
+    yearlyShare [(53, some ⟨2021, 8, 31⟩, some ⟨2021, 10, 1⟩), (110, some ⟨2021, 12, 31⟩, none)] 2022 = 0 ∧
+    -- the usual case keeps its shares: open since 2023-11-01 while another record ends in 2024
+    yearlyShare [(0, some ⟨2024, 3, 1⟩, some ⟨2024, 6, 1⟩), (427, some ⟨2023, 11, 1⟩, none)] 2023 = 61 ∧
+    yearlyShare [(0, some ⟨2024, 3, 1⟩, some ⟨2024, 6, 1⟩), (427, some ⟨2023, 11, 1⟩, none)] 2024 = 366 := by
   decide +kernel
 
-/-- the other shape of the same defect: a 110 kg record open since 2021-12-31 next to a record that
-ended in 2021 is given 110 · 365 = 40150 kg for 2022 -/
+/-- the hypotheses of `C14_yearly` hold of such a frame -/
 example :
-    yearlyShare [(53, some ⟨2021, 8, 31⟩, some ⟨2021, 10, 1⟩), (110, some ⟨2021, 12, 31⟩, none)] 2022 = 40150 := by
-  decide +kernel
+    latestDate [(0, some ⟨2024, 3, 1⟩, some ⟨2024, 6, 1⟩), (427, some ⟨2023, 11, 1⟩, none)] = some ⟨2024, 6, 1⟩ ∧
+    ValidDate ⟨2023, 11, 1⟩ := by
+  refine ⟨by decide +kernel, by unfold ValidDate; decide⟩
 
 /-! ### non-vacuity -/
 
